@@ -344,6 +344,38 @@ def main(argv):
             ctx.count("builtin-check")
             if m != w:
                 ctx.disagreement("model of a CPython builtin differs from CPython", {"line": l, "cpython": w, "model": m}, theorem="C20_split_singleton_iff")
+    # ---- the prefix given as text: an ASCII `str` prefix is the same prefix as its bytes (same verdicts, same wire keys); anything that is neither `str` nor
+    #      `bytes` is refused when the client is built, and so is text outside ASCII (line 363-366 / 1428-1431 of base.py) ----
+    for cls_name, mk in (("Client", lambda **kw: Client(("h", 1), **kw)), ("PooledClient", lambda **kw: PooledClient(("h", 1), **kw)),
+                         ("HashClient", lambda **kw: HashClient([("h", 1)], **kw))):
+        for pfx_s in ("", "ns:", "p" * 248, "a b", "user:"):
+            for au in (False, True):
+                try:
+                    cs, cb = mk(key_prefix=pfx_s, allow_unicode_keys=au), mk(key_prefix=pfx_s.encode("ascii"), allow_unicode_keys=au)
+                except Exception as e:
+                    ctx.violation("a client could not be built with an ASCII text prefix", {"class": cls_name, "prefix": pfx_s[:20], "error": repr(e)[:80]}, tags=["str-prefix"])
+                    continue
+                for key in (b"k", "k", b"kk", "k k", b"", "\u00e9", b"x" * 250, "y" * 3):
+                    def verdict(c_):
+                        try:
+                            return ("ok", c_.check_key(key) if cls_name != "Client" else c_.check_key(key, c_.key_prefix))
+                        except MemcacheIllegalInputError:
+                            return ("illegal", None)
+                        except Exception as e:
+                            return ("exc", type(e).__name__)
+                    ctx.case(("str-prefix", cls_name, pfx_s, au, repr(key)))
+                    ctx.count("text prefix vs bytes prefix")
+                    if verdict(cs) != verdict(cb) or (verdict(cs)[0] == "ok" and not verdict(cs)[1].startswith(pfx_s.encode("ascii"))):
+                        ctx.violation("a prefix given as ASCII text does not behave like the same prefix given as bytes",
+                                      {"class": cls_name, "prefix": pfx_s[:20], "allow_unicode_keys": au, "key": repr(key)[:40], "text": repr(verdict(cs))[:80], "bytes": repr(verdict(cb))[:80]}, tags=["str-prefix"])
+        for bad in (5, None, bytearray(b"p"), ["p"], "pr\u00e9fixe"):
+            ctx.case(("bad-prefix", cls_name, repr(bad)))
+            ctx.count("prefix of a wrong type")
+            try:
+                mk(key_prefix=bad)
+                ctx.violation("a client was built with a prefix that is neither ASCII text nor bytes", {"class": cls_name, "prefix": repr(bad)}, tags=["str-prefix"])
+            except (TypeError, UnicodeEncodeError):
+                pass
     ctx.assumptions = ["str keys are well-formed Unicode (no lone surrogates), as the property's quantifier says",
                        "keys are str or bytes"]
     ctx.finish()
